@@ -197,13 +197,15 @@ func (f *FieldCopyFromGenerator) genObject() *j.Statement {
 			}
 			// if !v.Null
 			g.If(j.Id("!v.Null && !v.Unknown")).BlockFunc(func(g *j.Group) {
+				if f.IsNullable {
+					// obj.Nested = &Nested{} (also for a message without fields: a non-null object is not nil)
+					g.Id(objFieldName).Op("=&").Id(f.i.WithType(f.GoElemTypeIndirect)).Values()
+				}
 				if !m.IsEmpty {
 					// tf := v
 					g.Id("tf").Op(":=").Id("v")
 
 					if f.IsNullable {
-						// obj.Nested = &Nested{}
-						g.Id(objFieldName).Op("=&").Id(f.i.WithType(f.GoElemTypeIndirect)).Values()
 						// obj := obj.Nested
 						g.Id("obj").Op(":=").Id(objFieldName)
 					} else {
